@@ -1,14 +1,14 @@
 (* C10 - Serialisation round trips are the identity.
    Property theorems only; proofs live in Proofs/*.v.
    Model: Model/Codec.v (_to_dict / _from_dict / JSON value tree / Message.from_json / copy) over Model/Values.v.
-   Spec-side definitions: Spec/CodecSpec.v (layouts, ApiReachable = [reach], invariant, exclusions).
+   Spec-side definitions: Spec/CodecSpec.v (layouts, ApiReachable = [reach], invariant, the NaN exclusion).
 
-   The property is FALSE of the current code for two classes of API-constructible values; the full statements are
-   kept visible, witnesses are proved (_refuted) and the statements are proved under decidable exclusions (_partial):
-     * [strings_clean]: no stale bytes after the first NUL of a char array (violated by m.s = "abc"; m.s = "a");
-     * [nans_canonical] (JSON only): every NaN is the canonical quiet NaN (violated by m.d = -nan).
-   [reach] itself excludes ctypes instances as assigned values ([plain]) - they bypass validate_one, see
-   known_findings.d/values.txt - and float-array sequences that start with NaN (the C09 defect). *)
+   One clause of the property is FALSE of the code for a class of API-constructible values; its full statement is
+   kept visible, a witness is proved (_refuted) and the statement is proved under a decidable exclusion (_partial):
+     * [nans_canonical] (JSON only): every NaN is the canonical quiet NaN (violated by m.d = -nan: JSON has one NaN).
+   [reach] excludes ctypes instances as assigned values ([plain]): they bypass validate_one (recorded finding).
+   History: the stale-bytes-after-NUL defect of char arrays (m.s = "abc"; m.s = "a") and Message.copy raising were
+   repaired in /repo (known_findings.d/values.txt, `fixed:` lines); the dictionary round trip is now proved in full. *)
 From Coq Require Import ZArith List Bool Lia.
 From Val Require Import Gen.ValidatorTbl Gen.CodecGuards Model.Bytes Model.Floats Model.Values Model.Codec
   Spec.ValSpec Spec.CodecSpec Proofs.CodecMisc Proofs.CodecProofs Proofs.ReachProofs.
@@ -25,45 +25,47 @@ Theorem C10_reach_invariant : forall leaves size m,
   layout_ok size leaves = true -> reach leaves size m -> reach_inv leaves size m = true.
 Proof. exact reach_invariant. Qed.
 
-(* to_dict / from_dict.  FULL STATEMENT (false, see C10_dict_refuted):
-     forall leaves size m, layout_ok size leaves = true -> reach leaves size m -> dict_roundtrip leaves size m = inr m. *)
-Theorem C10_dict_partial : forall leaves size m,
-  layout_ok size leaves = true -> reach leaves size m -> strings_clean leaves m = true ->
-  dict_roundtrip leaves size m = inr m.
+(* ... and has no stale bytes after the first NUL of any char array *)
+Theorem C10_reach_strings_clean : forall leaves size m,
+  layout_ok size leaves = true -> reach leaves size m -> strings_clean leaves m = true.
+Proof. exact reach_strings_clean. Qed.
+
+(* to_dict / from_dict: the identity on every image reachable through the validated API *)
+Theorem C10_dict : forall leaves size m,
+  layout_ok size leaves = true -> reach leaves size m -> dict_roundtrip leaves size m = inr m.
 Proof.
-  intros leaves size m Hl Hr Hs. apply dict_roundtrip_ok; auto. now apply reach_invariant.
+  intros leaves size m Hl Hr. apply dict_roundtrip_ok; auto;
+    [now apply reach_invariant|now apply (reach_strings_clean leaves size)].
 Qed.
 
-Theorem C10_dict_refuted : exists leaves size m,
-  layout_ok size leaves = true /\ reach leaves size m /\ dict_roundtrip leaves size m <> inr m.
-Proof.
-  (* String(4): m.s = "abc"; m.s = "a"  leaves  61 00 63 00 *)
-  set (f := mkField 0 (TString 4)).
-  exists [f], 4%nat, (snd (set true f KAttr (snd (set true f KAttr (repeat 0 4) (PStr [97; 98; 99]))) (PStr [97]))).
-  split; [reflexivity|]. split.
-  - apply reach_set; [apply reach_set; [apply reach_zero|now left|reflexivity|reflexivity]|now left|reflexivity|reflexivity].
-  - vm_compute. discriminate.
-Qed.
-
-(* to_json / from_json (message data alone).  FULL STATEMENT (false, see C10_json_refuted): as above for json_roundtrip. *)
+(* to_json / from_json (message data alone).  FULL STATEMENT (false, see C10_json_refuted):
+     forall leaves size m, layout_ok size leaves = true -> reach leaves size m -> json_roundtrip leaves size m = inr m. *)
 Theorem C10_json_partial : forall leaves size m,
-  layout_ok size leaves = true -> reach leaves size m -> strings_clean leaves m = true ->
-  nans_canonical leaves m = true -> json_roundtrip leaves size m = inr m.
+  layout_ok size leaves = true -> reach leaves size m -> nans_canonical leaves m = true ->
+  json_roundtrip leaves size m = inr m.
 Proof.
-  intros leaves size m Hl Hr Hs Hn. apply json_roundtrip_ok; auto. now apply reach_invariant.
+  intros leaves size m Hl Hr Hn.
+  apply json_roundtrip_ok; auto; [now apply reach_invariant|now apply (reach_strings_clean leaves size)].
 Qed.
 
 Theorem C10_json_refuted : exists leaves size m,
-  layout_ok size leaves = true /\ reach leaves size m /\ strings_clean leaves m = true /\
+  layout_ok size leaves = true /\ reach leaves size m /\
   dict_roundtrip leaves size m = inr m /\ json_roundtrip leaves size m <> inr m.
 Proof.
   (* Double: m.d = -nan : to_dict/from_dict keeps the sign bit, JSON does not *)
   set (f := mkField 0 (TFloat v_Double)).
   exists [f], 8%nat, (snd (set true f KAttr (repeat 0 8) (PFloat 18444492273895866368))).
   split; [reflexivity|]. split.
-  - apply reach_set; [apply reach_zero|now left|reflexivity|reflexivity].
-  - split; [vm_compute; reflexivity|]. split; [vm_compute; reflexivity|vm_compute; discriminate].
+  - apply reach_set; [apply reach_zero|now left|reflexivity].
+  - split; [vm_compute; reflexivity|vm_compute; discriminate].
 Qed.
+
+(* the input that used to break the dictionary round trip: a shorter string over a longer one *)
+Example C10_ex_string_history :
+  let f := mkField 0 (TString 4) in
+  let m := snd (set true f KAttr (snd (set true f KAttr (repeat 0 4) (PStr [97; 98; 99]))) (PStr [97])) in
+  m = [97; 0; 0; 0] /\ dict_roundtrip [f] 4 m = inr m.
+Proof. split; vm_compute; reflexivity. Qed.
 
 (* copy: equal bytes, fresh storage - a write through either object never shows through the other *)
 Theorem C10_copy : forall h i, (i < length h)%nat ->
@@ -85,9 +87,9 @@ Proof. exact version_mismatch_refused. Qed.
 (* header + data round trip (Message.to_json / Message.from_json) *)
 Theorem C10_message_partial : forall hc reg c h d,
   layout_ok (h_size hc) (h_leaves hc) = true -> reach (h_leaves hc) (h_size hc) h ->
-  strings_clean (h_leaves hc) h = true -> nans_canonical (h_leaves hc) h = true ->
+  nans_canonical (h_leaves hc) h = true ->
   layout_ok (k_size c) (k_leaves c) = true -> reach (k_leaves c) (k_size c) d ->
-  strings_clean (k_leaves c) d = true -> nans_canonical (k_leaves c) d = true ->
+  nans_canonical (k_leaves c) d = true ->
   lookup (field_int (h_msg_type hc) h) reg = Some c ->
   (field_int (h_version hc) h = 0 \/ field_int (h_version hc) h = k_hash c) ->
   msg_json_roundtrip hc reg c h d = inr (h, d).
@@ -111,22 +113,22 @@ Definition ex_image : list Z :=
   fold_left (fun m s => snd (set true (fst s) KAttr m (snd s))) ex_sets (repeat 0 40).
 
 Lemma reach_fold : forall leaves size sets m, reach leaves size m ->
-  Forall (fun s => In (fst s) leaves /\ plain (snd s) = true /\ excl (f_ty (fst s)) (snd s) = true) sets ->
+  Forall (fun s => In (fst s) leaves /\ plain (snd s) = true) sets ->
   reach leaves size (fold_left (fun m s => snd (set true (fst s) KAttr m (snd s))) sets m).
 Proof.
   intros leaves size sets. induction sets as [|s r IH]; intros m Hm Hs; cbn [fold_left]; [exact Hm|].
-  inversion Hs as [|? ? (H1 & H2 & H3) Hr]; subst. apply IH; [|exact Hr]. now apply reach_set.
+  inversion Hs as [|? ? (H1 & H2) Hr]; subst. apply IH; [|exact Hr]. now apply reach_set.
 Qed.
 
 Example C10_ex_canonical :
   layout_ok 40 ex_leaves = true /\ reach ex_leaves 40 ex_image /\
-  strings_clean ex_leaves ex_image = true /\ nans_canonical ex_leaves ex_image = true /\
+  nans_canonical ex_leaves ex_image = true /\
   ex_image <> repeat 0 40 /\ json_roundtrip ex_leaves 40 ex_image = inr ex_image.
 Proof.
   split; [reflexivity|]. split.
   - apply reach_fold; [apply reach_zero|].
-    repeat (constructor; [split; [cbn; tauto|split; reflexivity]|]). constructor.
-  - split; [vm_compute; reflexivity|]. split; [vm_compute; reflexivity|]. split; [vm_compute; discriminate|].
+    repeat (constructor; [split; [cbn; tauto|reflexivity]|]). constructor.
+  - split; [vm_compute; reflexivity|]. split; [vm_compute; discriminate|].
     vm_compute. reflexivity.
 Qed.
 
